@@ -9,9 +9,10 @@ from concurrent.futures import ThreadPoolExecutor
 from vlib import guarded_main
 
 SUPPORT = ["src/Exception/ContractViolation.cxx"]
-GROUPS = ["", "b", "c", "d", "e", "f", "g", "h", "i", "j"]
-# N = 3 instances of the helpers with a symbolic fourth-order parameter (54..81 entries over 40..96 symbols each): thorough tier only
-THOROUGH_GROUPS = ["t1", "t2", "t3", "t4", "t5", "t6", "t7"]
+# t1..t7: N = 3 instances of the helpers with a symbolic fourth-order parameter (54..81 entries over 40..96 symbols each), one or two
+# lemmas per file; t1..t4 take 40..55 s each, t5..t7 (rational in F: division by det F) 70..300 s: thorough tier only
+GROUPS = ["t1", "t2", "t3", "t4", "", "b", "c", "d", "e", "f", "g", "h", "i", "j"]
+THOROUGH_GROUPS = ["t5", "t6", "t7"]
 # helpers whose positive theorem is false of the pinned tree: group -> (helper, files used while the finding is present)
 FINDINGS = {"f": ("tensor_det2", ["C06RefutedF.v", "Properties_C06f_refuted.v"]),
             "g": ("st2tot2_tpld_chain", ["C06RefutedG.v", "Properties_C06g_refuted.v"])}
@@ -62,7 +63,6 @@ def main(c):
             shapes[(t[1], int(t[2]))] = (int(t[3].split("=")[1]), int(t[4].split("=")[1]))
     c.count(nagree)
     c.coverage["traces_validated_against_impl"] = nagree
-    c.coverage["jacobian_entries_proved_per_run"] = sum(a * b for (a, b) in shapes.values())
     c.trusted("engine S tracer (cxx/sym/sym.hxx: operator overloads, constant folding in Q[sqrt2], printer), the trait glue "
               "cxx/sym/symtfel.hxx and g++'s template instantiation of the helpers with Sym",
               "Sym-vs-double agreement of f and D of the %d helper instances on %d seeded points (O(1) and one common scale 1e-20..1e20); "
@@ -122,7 +122,7 @@ def main(c):
             else:
                 jobs.append((g, ["C06Proofs%s.v" % g.upper(), "Properties_C06%s.v" % g]))
         # heaviest first; 4 coqc at a time
-        jobs.sort(key=lambda j: 0 if j[0].startswith("t") else 1)
+        jobs.sort(key=lambda j: 0 if j[0] in THOROUGH_GROUPS else 1)
         with ThreadPoolExecutor(max_workers=4) as ex:
             fs = [(g, files, ex.submit(c.coq, files, 3400 if g.startswith("t") else 1500)) for (g, files) in jobs]
             for (g, files, f) in fs:
@@ -132,14 +132,28 @@ def main(c):
                     txt = open(os.path.join(c.dir, "coq", files[1])).read()
                     c.coverage["obligations"] += len(re.findall(r"^Theorem ", txt, flags=re.M))
                 for (fn, line, thm, msg) in res.failed:
+                    # coqc prints the Coquelicot coercion warning (line 4) before the error: take the last location of the message
+                    locs = re.findall(r'line (\d+), characters', msg or "")
+                    if locs:
+                        line = int(locs[-1])
                     if (fn.startswith("C06Proofs") or fn.startswith("C06Refuted")) and line:
                         lem = [m.group(1) for i, l in enumerate(open(os.path.join(c.dir, "coq", fn)).read().splitlines())
                                for m in [re.match(r"Lemma (\w+)", l)] if m and i + 1 <= line]
                         if lem:
                             c.notes.append("broken lemma: %s (%s line %d)" % (lem[-1], fn, line))
     if c.quick():
-        c.notes.append("quick tier: the 3D instances of dsquare(s,C), t2tot2::tpld/tprd(.,C), computePushForwardDerivative(dS,S,F) and of the five stress-derivative "
-                       "conversions are proved in the thorough tier only (Properties_C06t1..t7.v); their 1D and 2D instances and every other helper are proved here")
+        c.notes.append("quick tier: the 3D instances of computeCauchyStressDerivativeFromKirchhoffStressDerivative, convertSecondPiolaKirchhoffStressDerivativeTo"
+                       "FirstPiolaKirchoffStressDerivative and convertFirstPiolaKirchoffStressDerivativeToKirchhoffStressDerivative are proved in the thorough tier only "
+                       "(Properties_C06t5..t7.v); their 1D and 2D instances and every other helper are proved here")
+    # entries of the Jacobians proved in this run: instances whose lemma `<helper>_ok<N>` is in a proofs file that compiled
+    proved = 0
+    for (g, res) in results:
+        for (fn, ok, _dt) in res.files:
+            if ok and (fn.startswith("C06Proofs") or fn.startswith("C06Refuted")):
+                for m in re.finditer(r"^Lemma (\w+)_ok(\d) ", open(os.path.join(c.dir, "coq", fn)).read(), flags=re.M):
+                    a, b = shapes.get((m.group(1), int(m.group(2))), (0, 0))
+                    proved += a * b
+    c.coverage["jacobian_entries_proved_per_run"] = proved
     for (g, res) in results:
         if res.ok:
             continue
